@@ -1,28 +1,88 @@
-"""C03 — timelines are canonical (base states; derived graphs are added by derived_graphs())."""
-from .. import oracles
+"""C03 — timelines are canonical: on every reachable state and on every graph the library derives from it."""
+import io
+import json
+import dynetx as dn
+from dynetx.readwrite.json_graph import node_link_data, node_link_graph
+from .. import universes as U
+from .. import oracles, observe
 from . import base
 
 PROP = 'C03'
 LEVEL = 'model_checking'
 
 
+def derived_graphs(conf, G):
+    """(name, thunk) for every constructor the statement lists"""
+    o = U.FLAVOURS[conf['flavour']]['origin']
+    rng = list(range(o - 1, o + conf['w'] + 1))
+    out = []
+    for a in rng:
+        out.append(('time_slice(%d)' % a, lambda a=a: G.time_slice(a)))
+        for b in rng:
+            if b >= a:
+                out.append(('time_slice(%d,%d)' % (a, b), lambda a=a, b=b: G.time_slice(a, b)))
+    if G.is_directed():
+        out.append(('to_undirected', lambda: G.to_undirected()))
+        out.append(('to_undirected(reciprocal=True)', lambda: G.to_undirected(reciprocal=True)))
+    else:
+        out.append(('to_directed', lambda: G.to_directed()))
+    nt = int if isinstance(U.FLAVOURS[conf['flavour']]['ids'][0], int) else (str if isinstance(U.FLAVOURS[conf['flavour']]['ids'][0], str) else None)
+    if nt is not None:
+        def rs():
+            buf = io.BytesIO()
+            dn.write_snapshots(G, buf)
+            buf.seek(0)
+            return dn.read_snapshots(buf, directed=G.is_directed(), nodetype=nt, timestamptype=int)
+
+        def ri():
+            buf = io.BytesIO()
+            dn.write_interactions(G, buf)
+            buf.seek(0)
+            return dn.read_interactions(buf, directed=G.is_directed(), nodetype=nt, timestamptype=int)
+
+        def js():
+            return node_link_graph(json.loads(json.dumps(node_link_data(G))))
+        out += [('read_snapshots(write_snapshots)', rs), ('read_interactions(write_interactions)', ri), ('node_link_graph(node_link_data)', js)]
+    return out
+
+
 def state_fn(conf, hist, G, M):
     ctx = oracles.presence_ctx(G, conf)
-    trip = oracles.canonical(G, conf, ctx)
+    trip = list(oracles.canonical(G, conf, ctx))
     nruns = [len(oracles.runs_of(s)) for s in ctx[3].values()]
-    cnt = {'evaluations': 1, 'nontrivial': 1 if any(n >= 2 for n in nruns) or len(nruns) >= 2 else 0,
-           'states_multi_run': 1 if any(n >= 2 for n in nruns) else 0}
+    nder = 0
+    seen = set()
+    for name, thunk in derived_graphs(conf, G):
+        try:
+            H = thunk()
+        except Exception as ex:
+            # whether the constructor may fail here is the business of C06/C09/C10/C11/C16; C03 speaks about what it returns
+            continue
+        nder += 1
+        kind = name.split('(')[0]
+        for sub, sig, det in oracles.canonical(H, conf, what=kind):
+            k = (kind, sig['kind'])
+            if k not in seen:
+                seen.add(k)
+                trip.append((sub, sig, dict(det, derived_by=name)))
+    if nder:
+        for sub, sig, det in oracles.canonical(G, conf, what='source-after-deriving'):
+            trip.append((sub, sig, det))
+    cnt = {'evaluations': 1 + nder, 'nontrivial': 1 if any(n >= 2 for n in nruns) or len(nruns) >= 2 else 0,
+           'states_multi_run': 1 if any(n >= 2 for n in nruns) else 0, 'derived_graphs': nder}
     return trip, cnt, {'timelines': [repr(sorted((repr(k), sorted(v)) for k, v in ctx[3].items()))]}
 
 
 def run(tier, seed):
     return base.run_state_property(
-        PROP, LEVEL, state_fn, tier, seed, vacuity={'states_multi_run': 10},
+        PROP, LEVEL, state_fn, tier, seed, vacuity={'states_multi_run': 10, 'derived_graphs': 1000},
         sample_fn=base.default_samples,
-        rule='BFS over add_* histories (U1,U2,TWO,U3), both classes, removal enabled; in every distinct state every '
-             'timeline exposed by interactions()/in_/out_interactions() (all nodes as nbunch too) is checked: [s,e] pairs, '
-             's<=e, gaps >= 1 absent instant, union == has_interaction presence, both endpoints expose the same list; '
-             'non-trivial = a pair with >= 2 runs or >= 2 pairs')
+        rule='BFS over add_* histories (U1,U2,TWO,U3), both classes, removal enabled; in every distinct state every timeline exposed by '
+             'interactions()/in_/out_interactions() (all nodes as nbunch too) is checked: [s,e] pairs, s<=e, gaps >= 1 absent instant, union '
+             '== has_interaction presence, both endpoints expose the same list; the same oracle on every graph derived from the state: '
+             'time_slice for every window of the probe range, to_directed / to_undirected (both reciprocal values), '
+             'read_snapshots(write_snapshots), read_interactions(write_interactions), node_link_graph(node_link_data) — and on the source '
+             'again afterwards; evaluations = graphs checked; non-trivial = a pair with >= 2 runs or >= 2 pairs')
 
 
 def replay(case):
